@@ -1828,6 +1828,680 @@ fn probe_failed_put(ctx: &mut Ctx) {
     }
 }
 
+// ------------------------------------------------------------------ checkpoints on real files, leftovers included (CkptFs.lean)
+
+/// a checkpoint that returned Ok on a directory that held a leftover `<snapshot>.tmp` (an earlier checkpoint was
+/// interrupted inside its snapshot step) installed a snapshot file that is not the image of the store: bytes of the
+/// stale temp file behind it / unreadable / other content — and truncated the log
+const STALE_TMP: &str = "tensor_store.snapshot.save/stale_temp_file_corrupts_checkpoint_snapshot";
+/// the same on a directory without any leftover temp file
+const CKPT_SNAP_WRONG: &str = "tensor_store.slab_router.checkpoint/installed_snapshot_is_not_the_store";
+const CKPT_TMP_LEFT: &str = "tensor_store.snapshot.save/temp_file_left_behind_by_checkpoint";
+
+/// how a session of a `ckpt_fs` chain ends
+#[derive(Clone, Debug)]
+enum CkEnd {
+    /// no checkpoint; the process dies (Immediate: the log holds every operation)
+    Crash,
+    /// a checkpoint is interrupted INSIDE its snapshot step with num/den of the image in `<snapshot>.tmp`
+    /// (0 = temp file just created, den/den = image complete and fsynced, not yet renamed); old snapshot and log untouched
+    Tmp(u32, u32),
+    /// a checkpoint is interrupted after the rename with this many marker bytes in the log (usize::MAX = all of them)
+    Marker(usize),
+    /// a checkpoint runs to its end, then the process dies
+    Truncated,
+}
+
+/// one session: durable puts / deletes and COMPLETED checkpoints (`Op::Ckpt`) on the store recovered from whatever
+/// the previous session left on the same paths, then the end
+#[derive(Clone, Debug)]
+struct FsSession {
+    ops: Vec<Op>,
+    end: CkEnd,
+}
+
+fn fs_script_json(ss: &[FsSession]) -> Value {
+    json!(ss.iter().map(|s| json!({"ops": s.ops.iter().map(op_str).collect::<Vec<_>>(), "end": match &s.end {
+        CkEnd::Crash => "crash".to_string(),
+        CkEnd::Tmp(a, b) => format!("checkpoint interrupted inside the snapshot step: {a}/{b} of the image in snap.bin.tmp, not renamed"),
+        CkEnd::Marker(m) if *m == usize::MAX => "checkpoint interrupted after the marker, before the truncation".to_string(),
+        CkEnd::Marker(m) => format!("checkpoint interrupted after the rename, {m} marker bytes in the log"),
+        CkEnd::Truncated => "checkpoint completes, then crash".to_string(),
+    }})).collect::<Vec<_>>())
+}
+
+/// the two files of the snapshot step
+#[derive(Clone, PartialEq)]
+struct SnapFiles {
+    snap: Option<Vec<u8>>,
+    tmp: Option<Vec<u8>>,
+}
+fn read_snap_files(dir: &std::path::Path) -> SnapFiles {
+    SnapFiles { snap: std::fs::read(dir.join("snap.bin")).ok(), tmp: std::fs::read(dir.join("snap.bin.tmp")).ok() }
+}
+fn write_snap_files(dir: &std::path::Path, f: &SnapFiles) {
+    for (name, b) in [("snap.bin", &f.snap), ("snap.bin.tmp", &f.tmp)] {
+        match b {
+            Some(x) => std::fs::write(dir.join(name), x).unwrap(),
+            None => {
+                let _ = std::fs::remove_file(dir.join(name));
+            },
+        }
+    }
+}
+fn file_tok(b: &Option<Vec<u8>>) -> String {
+    match b {
+        None => "none".into(),
+        Some(b) => format!("some:{}", hex(b)),
+    }
+}
+fn files_tok(f: &SnapFiles) -> String {
+    format!("{} {}", file_tok(&f.snap), file_tok(&f.tmp))
+}
+fn files_short(f: &SnapFiles) -> Value {
+    json!({"snap.bin": f.snap.as_ref().map(|b| format!("{} bytes", b.len())), "snap.bin.tmp": f.tmp.as_ref().map(|b| format!("{} bytes", b.len()))})
+}
+
+/// one run of a `ckpt_fs` chain. `quiet`: real objects and oracles only, nothing recorded (used by the shrinker)
+struct FsRun<'a> {
+    ctx: &'a mut Ctx,
+    stream: &'a str,
+    quiet: bool,
+    /// the model is consulted until the first model/implementation disagreement; the run continues real-only
+    model_on: bool,
+    script: Value,
+    /// oracle violations found: (class, what, details)
+    found: Vec<(String, String, Value)>,
+    cfg: WalConfig,
+    /// the session being run
+    session: usize,
+}
+
+impl FsRun<'_> {
+    fn hit(&mut self, k: &str) {
+        if !self.quiet {
+            self.ctx.rep.hit(k);
+        }
+    }
+    fn viol(&mut self, class: &str, what: &str, details: Value) {
+        self.hit(&format!("violation.{class}"));
+        self.found.push((class.to_string(), what.to_string(), details));
+    }
+    fn ask(&mut self, line: &str) -> Option<String> {
+        if self.model_on { Some(self.ctx.m.ask(line)) } else { None }
+    }
+    fn compare(&mut self, sub: &str, key: Option<&str>, what: Value, imp: &str, model: Option<String>) {
+        let Some(model) = model else { return };
+        let stream = format!("{}.{sub}", self.stream);
+        self.ctx.rep.case(&stream, key);
+        let script = &self.script;
+        if !self.ctx.rep.compare(&stream, || json!({"script": script, "at": what}), imp, &model) {
+            self.model_on = false;
+            self.ctx.rep.hit("ckpt_fs.continues_real_only_after_disagreement");
+        }
+    }
+
+    /// A crash state (files of the snapshot step + log) as a real directory: real recovery, the model's `recoverFs`
+    /// on the same bytes, and the oracle: the recovered image is exactly `expect` (Immediate: every operation issued
+    /// is acknowledged). `blame`: class of a violation already diagnosed at the checkpoint that installed the snapshot.
+    fn check_state(&mut self, files: &SnapFiles, wal: &[u8], expect: &[String], what: &str, blame: Option<&'static str>) -> bool {
+        let d = self.ctx.fresh_dir();
+        std::fs::write(d.join("w.wal"), wal).unwrap();
+        write_snap_files(&d, files);
+        let r = TensorStore::recover(d.join("w.wal"), &self.cfg, Some(&d.join("snap.bin")));
+        let mut incoherent = Vec::new();
+        let (imp, img) = match &r {
+            Ok(st) => {
+                let img = image_of(st);
+                incoherent = incoherent_keys(st, &keys_of_images(&[expect.to_vec()]));
+                (fmt_image(&img), Some(img))
+            },
+            // rule 2 (BUILDING.md): every refusal of `recover` is the one variant WalError(String); compared as `err`
+            Err(e @ tensor_store::SlabRouterError::WalError(_)) => {
+                let t = e.to_string().to_lowercase();
+                self.hit(if t.contains("snapshot") { "ckpt_fs.recover.refused.snapshot_wording" } else { "ckpt_fs.recover.refused.other_wording" });
+                ("err".to_string(), None)
+            },
+            Err(e) => (format!("err other:{}", vname(e)), None),
+        };
+        drop(r);
+        if self.model_on {
+            self.ctx.bind_file(wal);
+        }
+        let model = self.ask(&format!("fs_recover {} {}", file_tok(&files.snap), hex(wal))).map(|a| {
+            let a = canon_model_image(&a);
+            if a.starts_with("err ") { "err".to_string() } else { a }
+        });
+        let key = format!("{what}|{}|{}", wal.len(), imp.len());
+        self.compare("recover", Some(&key), json!({"crash": what, "files": files_short(files), "wal_len": wal.len()}), &imp, model);
+        let bad: Option<(&str, String)> = match &img {
+            None => Some(("recover_error", imp.clone())),
+            Some(img) if durable_part(img) != expect => Some(("state_differs_from_acknowledged_writes", format!("recovered {:?}, acknowledged writes give {:?}", durable_part(img), expect))),
+            Some(_) => None,
+        };
+        let ok = bad.is_none();
+        if let Some((kind, detail)) = bad {
+            let class = blame.map(|c| c.to_string()).unwrap_or_else(|| format!("tensor_store.recover/{kind}"));
+            self.viol(&class, &format!("{kind} at crash state `{what}`: {detail}"), json!({"crash": what, "files": files_short(files), "wal_len": wal.len()}));
+        } else {
+            self.hit("oracle.recovered_state_is_acked_prefix");
+        }
+        for (k, w) in incoherent {
+            self.viol(INCOHERENT, &format!("recovered store: key {k:?}: {w}"), json!({"crash": what}));
+        }
+        let _ = std::fs::remove_dir_all(&d);
+        ok
+    }
+
+    /// The image `save_v3` writes for this store now: a save of the same store object into an empty directory
+    /// (two saves of one store may order their entries differently: its LENGTH and what it loads as are compared).
+    fn reference_image(&mut self, store: &TensorStore) -> Vec<u8> {
+        let d = self.ctx.fresh_dir();
+        let p = d.join("img.bin");
+        let b = if store.save_snapshot(&p).is_ok() { std::fs::read(&p).unwrap_or_default() } else { Vec::new() };
+        let _ = std::fs::remove_dir_all(&d);
+        b
+    }
+
+    /// One REAL `checkpoint(snap.bin)` on the directory as it is — with whatever an interrupted checkpoint left —
+    /// and the oracles of "taking a checkpoint never loses data" on its own outputs: it succeeds; the file it
+    /// installed loads as exactly the running store; nothing of a stale temp file sits behind the image; no temp
+    /// file is left. Returns (checkpoint id, files after, class of what is wrong with the installed snapshot).
+    fn real_checkpoint(&mut self, store: &TensorStore, dir: &std::path::Path, img_ref: &[u8], what: &str) -> Option<(u64, SnapFiles, Option<&'static str>)> {
+        let pre = read_snap_files(dir);
+        let live = image_of(store);
+        let stale_len = pre.tmp.as_ref().map(Vec::len);
+        self.hit(&format!("ckpt_fs.leftover.{}", match stale_len {
+            None => "none",
+            Some(l) if l > img_ref.len() => "longer_than_image",
+            Some(l) if l == img_ref.len() => "same_length_as_image",
+            Some(_) => "shorter_than_image",
+        }));
+        let class = if pre.tmp.is_some() { STALE_TMP } else { CKPT_SNAP_WRONG };
+        let details = |extra: Value| json!({"at": what, "files_before": files_short(&pre), "image_bytes_of_a_reference_save": img_ref.len(), "observed": extra});
+        let id = match store.checkpoint(dir.join("snap.bin")) {
+            Ok(id) => id,
+            Err(e) => {
+                self.viol(if pre.tmp.is_some() { STALE_TMP } else { "tensor_store.slab_router.checkpoint/fails" }, "checkpoint returns an error on the directory an interrupted checkpoint left behind: later checkpoints do not keep working", details(json!({"error_variant": vname(&e)})));
+                return None;
+            },
+        };
+        let post = read_snap_files(dir);
+        let p = post.snap.clone().unwrap_or_default();
+        let loaded = TensorStore::load_snapshot(dir.join("snap.bin")).map(|s| image_of(&s));
+        // bytes of the stale temp file that sit behind the image in the installed file
+        let tail = match &pre.tmp {
+            Some(st) if p.len() > img_ref.len() && p.len() == st.len() => p.iter().rev().zip(st.iter().rev()).take_while(|(a, b)| a == b).count().min(p.len() - img_ref.len()),
+            _ => 0,
+        };
+        let mut bad = None;
+        match &loaded {
+            Ok(img) if *img == live => {},
+            other => {
+                bad = Some(class);
+                self.viol(class, "checkpoint returned Ok (snapshot renamed into place, log truncated), but the snapshot file it installed does not load as the running store: every write acknowledged before the checkpoint is unreachable", details(json!({"load": match other { Ok(_) => "loads, as different content".to_string(), Err(e) => format!("rejected ({})", vname(e)) }, "installed_bytes": p.len(), "bytes_of_the_stale_temp_file_behind_the_image": tail})));
+            },
+        }
+        if bad.is_none() && tail > 0 {
+            bad = Some(STALE_TMP);
+            self.viol(STALE_TMP, "the snapshot file a checkpoint installed carries bytes of the stale temp file behind the image", details(json!({"installed_bytes": p.len(), "bytes_of_the_stale_temp_file_behind_the_image": tail})));
+        }
+        if post.tmp.is_some() {
+            self.viol(CKPT_TMP_LEFT, "a temp file exists after a checkpoint that returned Ok", details(json!({"temp_bytes": post.tmp.as_ref().map(Vec::len)})));
+        }
+        if bad.is_none() && post.tmp.is_none() {
+            self.hit("oracle.installed_snapshot_is_the_store");
+        }
+        Some((id, post, bad))
+    }
+
+    /// What may FOLLOW a crash state: on its directory, recover; delete (durably) every key but the first and write
+    /// one small key, so that the next image is shorter than anything left behind; take a checkpoint to the SAME
+    /// path (`real_checkpoint` and its oracles); crash; recover: exactly the acknowledged writes. Real only.
+    fn probe_next_checkpoint(&mut self, files: &SnapFiles, wal: &[u8], spec: &BTreeMap<String, Canon>, what: &str) {
+        let n_before = self.found.len();
+        self.probe_next_checkpoint_inner(files, wal, spec, what);
+        // what a probe finds needs only the sessions up to the one it branched off from
+        let upto = self.session + 1;
+        for f in self.found.iter_mut().skip(n_before) {
+            f.2["script_prefix_sessions"] = json!(upto);
+        }
+    }
+    fn probe_next_checkpoint_inner(&mut self, files: &SnapFiles, wal: &[u8], spec: &BTreeMap<String, Canon>, what: &str) {
+        let d = self.ctx.fresh_dir();
+        std::fs::write(d.join("w.wal"), wal).unwrap();
+        write_snap_files(&d, files);
+        let Ok(store) = TensorStore::recover(d.join("w.wal"), &self.cfg, Some(&d.join("snap.bin"))) else {
+            let _ = std::fs::remove_dir_all(&d);
+            return; // reported by check_state on the same state
+        };
+        let mut spec = spec.clone();
+        let keys: Vec<String> = spec.keys().skip(1).cloned().collect();
+        for k in keys {
+            if store.delete_durable(&k).is_ok() {
+                spec.remove(&k);
+            }
+        }
+        if store.put_durable("z".to_string(), td("z")).is_ok() {
+            spec.insert("z".into(), canon(&td("z")));
+        }
+        let what2 = format!("{what}; then recover, delete all keys but one, put z, checkpoint to the same path");
+        let img_ref = self.reference_image(&store);
+        let res = self.real_checkpoint(&store, &d, &img_ref, &what2);
+        drop(store);
+        if let Some((_, _, bad)) = res {
+            let r = TensorStore::recover(d.join("w.wal"), &self.cfg, Some(&d.join("snap.bin")));
+            let exp = spec_image(&spec);
+            match &r {
+                Ok(st) if durable_part(&image_of(st)) == exp => self.hit("oracle.next_checkpoint_after_crash_state"),
+                Ok(st) => {
+                    let got = durable_part(&image_of(st));
+                    self.viol(bad.unwrap_or("tensor_store.recover/state_differs_from_acknowledged_writes"), &format!("recovery after the checkpoint that followed crash state `{what}` gives {got:?}, the acknowledged writes give {exp:?}"), json!({"at": what2}));
+                },
+                Err(e) => self.viol(bad.unwrap_or("tensor_store.recover/recover_error"), "recovery fails after a checkpoint that returned Ok: every acknowledged write is lost", json!({"at": what2, "error_variant": vname(e)})),
+            }
+        }
+        let _ = std::fs::remove_dir_all(&d);
+    }
+}
+
+/// image byte counts at which the temp-file crash states of one checkpoint are materialised
+fn tmp_cuts(len: usize, stale: Option<usize>, thorough: bool) -> Vec<usize> {
+    let mut v = vec![0, 1, 19, 20, 21, len / 2, len.saturating_sub(1), len];
+    if let Some(s) = stale {
+        v.extend([s.saturating_sub(1), s, s + 1]);
+    }
+    if thorough {
+        v.extend((0..len).step_by((len / 24).max(1)));
+    }
+    v.retain(|x| *x <= len);
+    v.sort();
+    v.dedup();
+    v
+}
+
+/// Runs a chain of sessions on ONE directory (same log path, same snapshot path throughout): every checkpoint's crash
+/// states — log fsynced; temp file created / partly written / complete and not renamed (next to whatever an
+/// EARLIER interrupted checkpoint left); renamed, marker absent / partial / complete; truncated — are materialised as
+/// real directories, leftover temp files included, recovered for real (vs `recoverFs`), and probed with a further
+/// checkpoint + recovery; the chain itself continues from the state the session's end names, on the same paths.
+/// Returns the violations found.
+fn run_fs_chain(ctx: &mut Ctx, stream: &str, sessions: &[FsSession], quiet: bool) -> Vec<(String, String, Value)> {
+    let cfg = cfg_for(SyncMode::Immediate, None);
+    let thorough = ctx.thorough;
+    let dir = ctx.fresh_dir();
+    let wal_path = dir.join("w.wal");
+    let snap_path = dir.join("snap.bin");
+    let chain_id = ctx.n_dirs;
+    let mut run = FsRun { ctx, stream, quiet, model_on: !quiet, script: json!({"mode": "immediate", "sessions": fs_script_json(sessions)}), found: Vec::new(), cfg: cfg.clone(), session: 0 };
+    let Ok(mut store) = TensorStore::open_durable(&wal_path, cfg.clone()) else { return run.found };
+    run.ask("open immediate 0");
+    run.ask("fs_set none none");
+    let mut spec: BTreeMap<String, Canon> = BTreeMap::new();
+    let mut snap_ctr = 0u32;
+    // class of what is wrong with the snapshot file currently in place (diagnosed by the checkpoint that installed it)
+    let mut blame: Option<&'static str> = None;
+
+    for (si, s) in sessions.iter().enumerate() {
+        run.session = si;
+        // the steps of the session; the end adds one more checkpoint unless it is a plain crash
+        let mut steps: Vec<(Op, Option<&CkEnd>)> = s.ops.iter().map(|o| (o.clone(), None)).collect();
+        if !matches!(s.end, CkEnd::Crash) {
+            steps.push((Op::Ckpt, Some(&s.end)));
+        }
+        // the disk state the chain continues from after this session's crash
+        let mut resume: Option<(SnapFiles, Vec<u8>)> = None;
+        for (oi, (op, end)) in steps.iter().enumerate() {
+            match op {
+                Op::Put(k, d) => {
+                    let res = store.put_durable(k.clone(), d.clone());
+                    let c = canon(d);
+                    let m = run.ask(&format!("put {} {} {}", hex(k.as_bytes()), hex(&c.0), ob_str(&c.1))).map(|a| a.split_whitespace().next().unwrap_or("").to_string());
+                    run.hit("op.put");
+                    run.compare("op_result", None, json!({"session": si, "op": oi}), if res.is_ok() { "ok" } else { "err" }, m);
+                    if res.is_ok() {
+                        spec.insert(k.clone(), c);
+                    }
+                },
+                Op::Del(k) => {
+                    // without a size limit the log cannot refuse: the variant decides (see run_chain)
+                    let res = store.delete_durable(k);
+                    let m = run.ask(&format!("del {}", hex(k.as_bytes()))).map(|a| a.split_whitespace().next().unwrap_or("").to_string());
+                    run.hit("op.delete");
+                    run.compare("op_result", None, json!({"session": si, "op": oi}), if res.is_ok() { "ok" } else { "notfound" }, m);
+                    spec.remove(k);
+                },
+                Op::Sync => {},
+                Op::Ckpt => {
+                    run.hit("op.checkpoint");
+                    let at = format!("session {si} checkpoint@step{oi}");
+                    let wal_before = std::fs::read(&wal_path).unwrap_or_default();
+                    let n_rec = if run.model_on { run.ctx.bind_file(&wal_before).0 } else { 0 };
+                    run.ask("ckpt_sync");
+                    let pre = read_snap_files(&dir);
+                    let img = run.reference_image(&store);
+                    let expect = spec_image(&spec);
+                    let cuts = tmp_cuts(img.len(), pre.tmp.as_ref().map(Vec::len), thorough);
+                    // ---- the crash states before the rename: the model's `FSys.ckptStates` vs the directories built here
+                    let mut pre_states: Vec<(String, SnapFiles)> = vec![(format!("{at}: log fsynced, snapshot step not started"), pre.clone())];
+                    for &j in &cuts {
+                        let kind = if j == 0 { "created, empty" } else if j == img.len() { "complete and fsynced, not renamed" } else { "partly written" };
+                        pre_states.push((format!("{at}: temp file {kind} ({j}/{} image bytes)", img.len()), SnapFiles { snap: pre.snap.clone(), tmp: Some(img[..j].to_vec()) }));
+                    }
+                    let cuts_s = cuts.iter().map(|c| c.to_string()).collect::<Vec<_>>().join(",");
+                    let name = format!("f{chain_id}_{}", snap_ctr + 1);
+                    let m_states = run.ask(&format!("fs_ckpt 0 0 {name} {} 0 {cuts_s}", hex(&img)));
+                    let local = {
+                        let mut v: Vec<String> = pre_states.iter().map(|(_, f)| format!("{} {n_rec}", files_tok(f))).collect();
+                        let done = SnapFiles { snap: Some(img.clone()), tmp: None };
+                        v.push(format!("{} {n_rec}", files_tok(&done)));
+                        v.push(format!("{} {}", files_tok(&done), n_rec + 1));
+                        v.push(format!("{} 0", files_tok(&done)));
+                        v.join(" | ")
+                    };
+                    run.compare("crash_states", Some(&format!("{}|{}", img.len(), cuts_s)), json!({"at": at, "what": "files and log records at every crash state of a checkpoint (model: FSys.ckptStates on the directory as it is, given the image) vs the directories the harness materialises", "files_before": files_short(&pre)}), &local, m_states);
+                    let mut probed = 0;
+                    for (i, (what, f)) in pre_states.iter().enumerate() {
+                        run.check_state(f, &wal_before, &expect, what, blame);
+                        let tl = f.tmp.as_ref().map(Vec::len);
+                        run.hit(if i == 0 { "ckpt_fs.state.log_fsynced" } else if tl == Some(0) { "ckpt_fs.state.tmp_created" } else if tl == Some(img.len()) { "ckpt_fs.state.tmp_complete" } else { "ckpt_fs.state.tmp_partial" });
+                        // a further checkpoint on this crash state: all of them (thorough) / the longest leftovers and the empty one
+                        let interesting = i > 0 && (thorough || tl == Some(0) || tl.map_or(false, |l| 2 * l >= img.len()));
+                        if interesting && blame.is_none() && (thorough || probed < 4) {
+                            probed += 1;
+                            run.probe_next_checkpoint(f, &wal_before, &spec, what);
+                        }
+                    }
+                    // ---- the end of this checkpoint
+                    if let Some(CkEnd::Tmp(a, b)) = end {
+                        let j = (img.len() as u64 * u64::from(*a) / u64::from((*b).max(1))) as usize;
+                        run.hit(if j == 0 { "ckpt_fs.interrupted.tmp_created" } else if j >= img.len() { "ckpt_fs.interrupted.tmp_complete" } else { "ckpt_fs.interrupted.tmp_partial" });
+                        resume = Some((SnapFiles { snap: pre.snap.clone(), tmp: Some(img[..j.min(img.len())].to_vec()) }, wal_before.clone()));
+                        break;
+                    }
+                    // ---- the REAL checkpoint, on the directory as it is
+                    let Some((id, post, bad)) = run.real_checkpoint(&store, &dir, &img, &at) else { return run.found };
+                    blame = bad;
+                    snap_ctr += 1;
+                    let p = post.snap.clone().unwrap_or_default();
+                    // correspondence: the model runs the same checkpoint on ITS directory, writing the first
+                    // `reference length` bytes of the installed file as the image
+                    // (two saves of one store might differ in length; only an installed file that is exactly as long as
+                    // the leftover temp file AND longer than the reference image is cut to the reference length)
+                    if p.len() != img.len() {
+                        run.hit("ckpt_fs.installed_length_differs_from_reference");
+                    }
+                    let overlay_shape = p.len() > img.len() && pre.tmp.as_ref().map(Vec::len) == Some(p.len());
+                    let new_bytes = if overlay_shape { &p[..img.len()] } else { &p[..] };
+                    let m_fin = run.ask(&format!("fs_ckpt 0 1 {name} {} {id} -", hex(new_bytes))).map(|a| a.rsplit(" | ").next().unwrap_or("").to_string());
+                    run.compare("installed_files", Some(&format!("{}|{:?}", p.len(), pre.tmp.as_ref().map(Vec::len))), json!({"at": at, "what": "snapshot file, temp file and log records after a checkpoint that returned Ok", "files_before": files_short(&pre), "files_after": files_short(&post)}), &format!("{} 0", files_tok(&post)), m_fin);
+                    if bad.is_none() {
+                        run.ask(&format!("fs_bind {} {name}", hex(&p)));
+                    }
+                    let after_len = std::fs::metadata(&wal_path).map(|m| m.len()).unwrap_or(0);
+                    run.compare("ckpt_truncates", None, json!({"at": at}), &format!("{after_len}"), Some("0".to_string()));
+                    // ---- the crash states after the rename: installed file + log with 0..all marker bytes; truncated
+                    let marker = frame(&bitcode::serialize(&WalEntry::Checkpoint { snapshot_id: id }).unwrap());
+                    let mut mcuts = if thorough { vec![0, 3, 8, marker.len() - 1, marker.len()] } else { vec![0, 5, marker.len()] };
+                    if let Some(CkEnd::Marker(m)) = end {
+                        mcuts.push((*m).min(marker.len()));
+                    }
+                    mcuts.sort();
+                    mcuts.dedup();
+                    for (pi, mc) in mcuts.iter().enumerate() {
+                        let mut w = wal_before.clone();
+                        w.extend_from_slice(&marker[..*mc]);
+                        let what = format!("{at}: snapshot renamed into place, {mc}/{} marker bytes", marker.len());
+                        run.check_state(&post, &w, &expect, &what, blame);
+                        run.hit(if *mc == 0 { "ckpt_fs.state.renamed" } else { "ckpt_fs.state.marker" });
+                        if pi == 0 && blame.is_none() {
+                            run.probe_next_checkpoint(&post, &w, &spec, &what);
+                        }
+                    }
+                    run.check_state(&post, &[], &expect, &format!("{at}: log truncated"), blame);
+                    run.hit("ckpt_fs.state.truncated");
+                    match end {
+                        Some(CkEnd::Marker(m)) => {
+                            let mut w = wal_before.clone();
+                            w.extend_from_slice(&marker[..(*m).min(marker.len())]);
+                            run.hit("ckpt_fs.interrupted.after_rename");
+                            resume = Some((post.clone(), w));
+                            break;
+                        },
+                        Some(_) => {
+                            run.hit("ckpt_fs.interrupted.after_truncate");
+                            resume = Some((post.clone(), Vec::new()));
+                            break;
+                        },
+                        None => {},
+                    }
+                },
+            }
+        }
+        // ---- live store vs model vs the writes, before the crash
+        let live = image_of(&store);
+        let mimg = run.ask("image").map(|a| canon_model_image(&format!("ok {a}")));
+        run.compare("live_image", Some(&fmt_image(&live)), json!({"session": si}), &fmt_image(&live), mimg);
+        if durable_part(&live) != spec_image(&spec) {
+            run.viol("tensor_store.live/state_differs_from_writes", "live store answers differently from the writes issued", json!({"session": si, "live": durable_part(&live), "expected": spec_image(&spec)}));
+        }
+        // ---- crash: the directory becomes the chosen state (a plain crash: the files as they are), same paths
+        let (files, wal) = resume.unwrap_or_else(|| (read_snap_files(&dir), std::fs::read(&wal_path).unwrap_or_default()));
+        drop(store);
+        std::fs::write(&wal_path, &wal).unwrap();
+        write_snap_files(&dir, &files);
+        let expect = spec_image(&spec);
+        let what = format!("end of session {si}");
+        if !run.check_state(&files, &wal, &expect, &what, blame) {
+            break; // the property is violated on this state; reported
+        }
+        // ---- recover for real on the same paths and go on
+        store = match TensorStore::recover(&wal_path, &cfg, Some(&snap_path)) {
+            Ok(s) => s,
+            Err(_) => break,
+        };
+        if run.model_on {
+            run.ctx.bind_file(&wal);
+        }
+        run.ask(&format!("fs_set {}", files_tok(&files)));
+        let m = run.ask(&format!("fs_resume {}", hex(&wal))).map(|a| {
+            let mut it = a.splitn(3, ' ');
+            let (w0, _len, rest) = (it.next().unwrap_or(""), it.next(), it.next().unwrap_or(""));
+            if w0 == "ok" { canon_model_image(&format!("ok {rest}")) } else { "err".to_string() }
+        });
+        run.compare("resume_image", None, json!({"session": si, "files": files_short(&files)}), &fmt_image(&image_of(&store)), m);
+        run.hit(&format!("ckpt_fs.crash_number.{}", (si + 1).min(4)));
+        if files.tmp.is_some() {
+            run.hit("ckpt_fs.resumed_with_leftover_temp_file");
+        }
+    }
+    let _ = std::fs::remove_dir_all(&dir);
+    run.found
+}
+
+/// Runs a chain, and when an oracle fires shrinks the script (whole sessions, then the operations of each session)
+/// by real-only re-runs that must hit the same class; the violation is reported with the shrunk script as its input.
+fn fs_chain_reported(ctx: &mut Ctx, stream: &str, sessions: &[FsSession], shrink: bool) {
+    let found = run_fs_chain(ctx, stream, sessions, false);
+    if found.is_empty() {
+        return;
+    }
+    let mut reported: HashSet<String> = HashSet::new();
+    for (class, what, details) in &found {
+        if !reported.insert(class.clone()) {
+            continue;
+        }
+        let mut cur: Vec<FsSession> = sessions.to_vec();
+        if let Some(n) = details["script_prefix_sessions"].as_u64() {
+            cur.truncate(n as usize);
+        }
+        if shrink {
+            let mut budget = 60usize;
+            let fails = |cand: &[FsSession], ctx: &mut Ctx, budget: &mut usize| -> bool {
+                if *budget == 0 {
+                    return false;
+                }
+                *budget -= 1;
+                run_fs_chain(ctx, stream, cand, true).iter().any(|f| f.0 == *class)
+            };
+            cur = nverif::shrink_list(&cur, &mut |c| fails(c, ctx, &mut budget));
+            for i in 0..cur.len() {
+                if cur[i].ops.len() > 1 {
+                    let base = cur.clone();
+                    let ops = nverif::shrink_list(&cur[i].ops, &mut |o| {
+                        let mut cand = base.clone();
+                        cand[i].ops = o.to_vec();
+                        fails(&cand, ctx, &mut budget)
+                    });
+                    cur[i].ops = ops;
+                }
+            }
+            ctx.rep.hit("ckpt_fs.shrunk_a_failing_script");
+        }
+        // the details of the shrunk script's own failure
+        let (what2, details2) = if shrink {
+            run_fs_chain(ctx, stream, &cur, true).into_iter().find(|f| f.0 == *class).map(|f| (f.1, f.2)).unwrap_or((what.clone(), details.clone()))
+        } else {
+            (what.clone(), details.clone())
+        };
+        ctx.rep.violation(class, &what2, json!({"stream": stream, "script": {"mode": "immediate", "sessions": fs_script_json(&cur)}, "details": details2, "sessions_before_shrinking": sessions.len()}));
+    }
+}
+
+/// a value whose serialized size does not compress away: the image grows and shrinks with the number of keys
+fn blob(i: u64, words: usize) -> TensorData {
+    let mut x = i.wrapping_mul(0x9E37_79B9_7F4A_7C15).wrapping_add(0xD1B5_4A32_D192_ED03);
+    let mut s = String::new();
+    for _ in 0..words {
+        x ^= x << 13;
+        x ^= x >> 7;
+        x ^= x << 17;
+        s.push_str(&format!("{x:016x}"));
+    }
+    let mut d = td(&s);
+    d.set("n", TensorValue::Scalar(ScalarValue::Int(i as i64)));
+    d
+}
+
+/// DIRECTED: the shortest histories in which the truncation of the temp file is the only thing that keeps a
+/// completed checkpoint's snapshot readable, and their neighbours
+fn fs_directed() -> Vec<(&'static str, Vec<FsSession>)> {
+    let grow = |from: u64, n: u64| -> Vec<Op> { (from..from + n).map(|i| Op::Put(format!("k{i:02}"), blob(i, 6))).collect() };
+    let dels = |from: u64, n: u64| -> Vec<Op> { (from..from + n).map(|i| Op::Del(format!("k{i:02}"))).collect() };
+    let with = |mut a: Vec<Op>, b: Vec<Op>| -> Vec<Op> { a.extend(b); a };
+    vec![
+        // the minimal one: image complete in the temp file, not renamed; recover; the store shrinks; a checkpoint completes; recover
+        ("stale_complete_then_smaller_checkpoint", vec![
+            FsSession { ops: grow(0, 8), end: CkEnd::Tmp(1, 1) },
+            FsSession { ops: with(dels(0, 6), vec![Op::Ckpt, Op::Put("after".into(), td("x"))]), end: CkEnd::Crash },
+            FsSession { ops: vec![Op::Put("later".into(), td("y"))], end: CkEnd::Truncated },
+        ]),
+        // neighbours: the stale file is a strict prefix / empty / shorter than the next image / same length
+        ("stale_partial_then_smaller_checkpoint", vec![
+            FsSession { ops: grow(0, 8), end: CkEnd::Tmp(7, 8) },
+            FsSession { ops: dels(0, 7), end: CkEnd::Truncated },
+            FsSession { ops: vec![Op::Put("later".into(), td("y"))], end: CkEnd::Crash },
+        ]),
+        ("stale_empty_then_checkpoint", vec![
+            FsSession { ops: grow(0, 4), end: CkEnd::Tmp(0, 1) },
+            FsSession { ops: dels(0, 2), end: CkEnd::Truncated },
+        ]),
+        ("stale_shorter_than_next_image", vec![
+            FsSession { ops: grow(0, 3), end: CkEnd::Tmp(1, 1) },
+            FsSession { ops: grow(3, 5), end: CkEnd::Truncated },
+            FsSession { ops: dels(0, 8), end: CkEnd::Marker(5) },
+        ]),
+        ("stale_same_store_again", vec![
+            FsSession { ops: grow(0, 5), end: CkEnd::Tmp(1, 1) },
+            FsSession { ops: vec![], end: CkEnd::Truncated },
+        ]),
+        // two interrupted checkpoints in a row (the second one's temp file replaces the first one's), then a smaller one completes
+        ("two_interrupted_then_smaller_checkpoint", vec![
+            FsSession { ops: grow(0, 9), end: CkEnd::Tmp(1, 1) },
+            FsSession { ops: dels(0, 3), end: CkEnd::Tmp(1, 2) },
+            FsSession { ops: dels(3, 5), end: CkEnd::Marker(usize::MAX) },
+            FsSession { ops: vec![Op::Put("later".into(), td("y"))], end: CkEnd::Truncated },
+        ]),
+        // an old snapshot in place, a bigger store's checkpoint interrupted, the store shrinks below BOTH, two more checkpoints
+        ("old_snapshot_and_stale_temp", vec![
+            FsSession { ops: with(grow(0, 3), vec![Op::Ckpt]), end: CkEnd::Crash },
+            FsSession { ops: with(grow(3, 7), vec![Op::Put("emb:a".into(), tdv("e", 1.0, 3))]), end: CkEnd::Tmp(1, 1) },
+            FsSession { ops: with(dels(0, 9), vec![Op::Del("emb:a".into()), Op::Ckpt, Op::Put("k00".into(), td("back")), Op::Ckpt]), end: CkEnd::Crash },
+            FsSession { ops: vec![], end: CkEnd::Tmp(1, 3) },
+        ]),
+        // interrupted after the rename (the OLD snapshot is the longer file), the store shrinks, a checkpoint completes
+        ("interrupted_after_rename_then_smaller_checkpoint", vec![
+            FsSession { ops: grow(0, 8), end: CkEnd::Marker(0) },
+            FsSession { ops: dels(0, 7), end: CkEnd::Truncated },
+        ]),
+    ]
+}
+
+/// RANDOM: sessions that alternately grow and shrink the store, most of them ending inside a checkpoint — biased
+/// towards "image complete in the temp file, not renamed" — with completed checkpoints in between and at the end
+fn gen_fs_sessions(r: &mut Rng) -> Vec<FsSession> {
+    let n = 3 + r.below(2) as usize;
+    let mut live: Vec<String> = Vec::new();
+    let mut next = 0u64;
+    let mut out = Vec::new();
+    for si in 0..n {
+        let mut ops = Vec::new();
+        let growing = if si == 0 { true } else { r.chance(1, 3) };
+        if growing {
+            for _ in 0..(3 + r.below(6)) {
+                let k = match r.below(8) {
+                    0 => format!("emb:e{}", r.below(3)),
+                    1 => format!("node:{}", r.below(3)),
+                    2 if !live.is_empty() => r.pick(&live).clone(),
+                    _ => {
+                        next += 1;
+                        format!("k{next:02}")
+                    },
+                };
+                let d = if k.starts_with("emb:") && r.chance(1, 2) { tdv("e", r.below(4) as f32, 3) } else { blob(r.below(1000), 1 + r.below(8) as usize) };
+                if !live.contains(&k) {
+                    live.push(k.clone());
+                }
+                ops.push(Op::Put(k, d));
+            }
+        } else {
+            // shrink: most of the live keys go
+            let keep = r.below(3) as usize;
+            r.shuffle(&mut live);
+            while live.len() > keep {
+                ops.push(Op::Del(live.pop().unwrap()));
+            }
+            if r.chance(1, 3) {
+                ops.push(Op::Del("absent".into()));
+            }
+            if r.chance(1, 2) {
+                next += 1;
+                let k = format!("k{next:02}");
+                live.push(k.clone());
+                ops.push(Op::Put(k, td("s")));
+            }
+        }
+        if r.chance(1, 3) && !ops.is_empty() {
+            let at = r.below(ops.len() as u64 + 1) as usize;
+            ops.insert(at, Op::Ckpt);
+        }
+        let end = if si + 1 == n {
+            CkEnd::Truncated
+        } else {
+            match r.below(20) {
+                0..=5 => CkEnd::Tmp(1, 1),
+                6..=9 => CkEnd::Tmp(1 + r.below(15) as u32, 16),
+                10 => CkEnd::Tmp(0, 1),
+                11..=13 => CkEnd::Marker(*r.pick(&[0usize, 1, 5, 9, usize::MAX])),
+                14..=16 => CkEnd::Truncated,
+                _ => CkEnd::Crash,
+            }
+        };
+        out.push(FsSession { ops, end });
+    }
+    out
+}
+
 fn td(s: &str) -> TensorData {
     let mut d = TensorData::new();
     d.set("f", TensorValue::Scalar(ScalarValue::String(s.to_string())));
@@ -1860,6 +2534,9 @@ fn main() {
         "ckpt_state.after_marker", "ckpt_state.after_truncate", "frames.end.clean", "frames.end.torn", "frames.end.bad_crc", "frames.end.undecodable",
         "op.sync", "op.checkpoint", "oracle.recovered_state_is_acked_prefix",
         "config.bloom", "config.no_checksums", "config.no_verify", "config.batched01", "ckpt_state.partial_snapshot_tmp", "emb.nonvector", "crash_number.3", "config.no_auto_rotate", "op.refused_by_size_limit", "op.refused_put_of_emb_key_with_vector", "op.refused_put_after_0_records", "op.refused_put_after_1_records", "op.refused_delete_after_2_records", "failed_put.embedding_record_refused", "failed_put.metadata_record_refused", "failed_put.key_was_indexed", "failed_put.key_was_new", "oracle.failed_put_changed_nothing", "oracle.checkpoint_vs_writer_every_acknowledged_write_recovered", "oracle.exists_scan_get_agree", "rotate_state.log_path_missing", "rotate_state.fresh_file_created", "rotate_state.before_live_rename",
+        "ckpt_fs.leftover.none", "ckpt_fs.leftover.longer_than_image", "ckpt_fs.leftover.shorter_than_image", "ckpt_fs.state.log_fsynced", "ckpt_fs.state.tmp_created", "ckpt_fs.state.tmp_partial", "ckpt_fs.state.tmp_complete", "ckpt_fs.state.renamed", "ckpt_fs.state.marker", "ckpt_fs.state.truncated",
+        "ckpt_fs.interrupted.tmp_created", "ckpt_fs.interrupted.tmp_partial", "ckpt_fs.interrupted.tmp_complete", "ckpt_fs.interrupted.after_rename", "ckpt_fs.interrupted.after_truncate", "ckpt_fs.resumed_with_leftover_temp_file", "ckpt_fs.crash_number.3",
+        "oracle.installed_snapshot_is_the_store", "oracle.next_checkpoint_after_crash_state",
     ]
     .iter()
     .map(|s| s.to_string())
@@ -1874,6 +2551,15 @@ fn main() {
     for round in 0..(if th { 12 } else { 4 }) {
         probe_checkpoint_vs_writer(&mut ctx, round, round % 2 == 1);
     }
+    // the files of checkpoint's snapshot step (CkptFs.lean): a checkpoint interrupted with its image in
+    // `snap.bin.tmp`, recovery, a store that shrinks, a LATER checkpoint on the same path that completes, recovery
+    // (class snapshot.save/stale_temp_file_corrupts_checkpoint_snapshot) — and the neighbours of that history
+    let t_start = std::time::Instant::now();
+    for (name, sessions) in fs_directed() {
+        ctx.rep.hit(&format!("ckpt_fs.directed.{name}"));
+        fs_chain_reported(&mut ctx, "ckpt_fs_directed", &sessions, false);
+    }
+    let mut t_fs = t_start.elapsed();
     {
         let mut r = rng.fork("probes");
         // KNOWN FINDING tensor_store.wal.rotate/acked_entries_not_replayed: max_size_bytes=220, 14 Immediate
@@ -2253,9 +2939,24 @@ fn main() {
         }
     }
 
+    // 10. checkpoints on real files: sessions that grow and shrink the store and end at every step boundary of a
+    //     checkpoint, temp files left behind included; further checkpoints and recoveries on the same paths
+    {
+        let t0 = std::time::Instant::now();
+        let mut r = rng.fork("chain_ckpt_fs");
+        let n = if th { 40 } else { 8 };
+        for _ in 0..n {
+            let sessions = gen_fs_sessions(&mut r);
+            fs_chain_reported(&mut ctx, "chain_ckpt_fs", &sessions, true);
+        }
+        t_fs += t0.elapsed();
+    }
+    ctx.rep.note(&format!("the ckpt_fs streams took {:.1} s of the {:.1} s of this run (wall)", t_fs.as_secs_f64(), t_start.elapsed().as_secs_f64()));
+
     let mre = ctx.max_rel_err;
     ctx.rep.note(&format!("embeddings of dimension >= {TT_MIN_DIM} that came back through a checkpoint snapshot are compared within relative L2 error {TT_REL_TOL} (tensor-train snapshot format, lossy by design, property C07); largest error seen {mre:.3e}; everything else is compared bit-exact"));
     ctx.rep.note("crash model: the log file keeps any byte prefix >= the synced length (Immediate: every returned operation is synced); snapshot file replaced atomically (temp + rename); directory-entry durability and media corruption are not modelled");
+    ctx.rep.note("ckpt_fs streams: the snapshot file and the temp file `snap.bin.tmp` are state (model: CkptFs.lean); the crash states inside the snapshot step are built from the image a reference save of the same store writes (temp file = a byte prefix of it, old snapshot and whole log in place), the ones after the rename from the files the REAL checkpoint left; every one is a real directory that is recovered for real, the chain continues on the same paths with the leftover temp file in place, and every LATER checkpoint is the real one, judged by: it returns Ok, the file it installed loads as the running store, carries nothing of the stale temp file, no temp file is left, recovery afterwards gives exactly the acknowledged writes");
     ctx.rep.note("checkpoint crash states are reconstructed from the files before/after the real checkpoint call (snapshot file after, log before, marker record re-encoded with the real bitcode + crc32fast); no hook in /repo needed");
     ctx.rep.note("out of scope here, noted for C11: put_durable applies to memory after releasing the log mutex, so concurrent writers can apply in a different order than they are logged");
     let lines = ctx.m.lines;
